@@ -1,0 +1,22 @@
+//go:build verif
+
+package shimagent
+
+import "reflect"
+
+// VerifWaiters reports how many goroutines are currently registered on the
+// condition variable of message code msg (0 when msg is out of range). It reads
+// sync.Cond's notify list; the verification harness uses it to sequence waiters
+// and requests deterministically.
+func (s *Server) VerifWaiters(msg byte) int {
+	if int(msg) >= len(s.conds) {
+		return 0
+	}
+	c := s.conds[msg]
+	c.L.Lock()
+	defer c.L.Unlock()
+	nl := reflect.ValueOf(c).Elem().FieldByName("notify")
+	wait := nl.FieldByName("wait").Uint()
+	notify := nl.FieldByName("notify").Uint()
+	return int(uint32(wait) - uint32(notify))
+}
